@@ -85,6 +85,12 @@ func (g *Gen) do(line string) string {
 	out := g.env.Exec(line)
 	g.ops = append(g.ops, line)
 	g.outs = append(g.outs, out)
+	if g.env.dead {
+		if g.mon != nil && g.mon.prop == "C05" {
+			g.mon.After(g, line, out) // the C05 monitor reports the deadlock; it does not read the state
+		}
+		panic(historyOver{})
+	}
 	w := strings.Fields(line)
 	key := w[0]
 	if key == "vote" && len(w) > 3 {
@@ -173,6 +179,15 @@ func (g *Gen) setup() {
 	comms := []string{"0", "10000000000000000", "5000000000000000", "300000000000000000", "1", "999999999999999999"}
 	id := uint64(1)
 	incomplete := r.Intn(6) == 0 // some histories run with configuration gaps (no Minter counterpart, missing price)
+	if g.genesisMode && r.Intn(3) == 0 {
+		// a migrated asset: governance listed the new contract first, under a higher id; the old entry stays
+		// (lookups by denomination take the first entry, lookups by contract or id still find the old one)
+		t := tokSpec{id: 40, denom: "hub", chain: "ethereum", dec: 18,
+			ext: ethHex([]byte{0x1f, 1, 2, 3, 4, 5, 6, 7, 8, 9, 10, 11, 12, 13, 14, 15, 16, 17, 18, 19})}
+		g.tokens = append(g.tokens, t)
+		g.do(fmt.Sprintf("token %d %s %s %s %d %s", t.id, t.denom, t.chain, t.ext, t.dec, comms[r.Intn(len(comms))]))
+		g.stats["genesis:migrated-token-listed-first"]++
+	}
 	for di, d := range g.denoms {
 		for _, c := range []string{"ethereum", "minter", "bsc"} {
 			if di > 0 && ((incomplete && r.Intn(3) == 0) || (c != "minter" && r.Intn(6) == 0)) {
@@ -556,6 +571,7 @@ func (g *Gen) opBatchExecuted() {
 func (g *Gen) dumpEverything() {
 	g.do("dump bank")
 	g.do("dump status")
+	g.do("dump tokens")
 	for _, c := range g.chains {
 		for _, sec := range []string{"pool", "batches", "sets", "votes", "keys", "sigs", "counters"} {
 			g.do("dump " + sec + " " + c)
@@ -611,6 +627,20 @@ func (g *Gen) runLedger(nops int) {
 		case x < 75 && g.rng.Intn(2) == 0:
 			// a governance proposal is dry-run on a branch that is thrown away (gov SubmitProposal / CheckTx)
 			g.do(fmt.Sprintf("world dryrun:tokens:%d", []int64{0, 50000000000000000, 900000000000000000}[g.rng.Intn(3)]))
+		case x < 79 && g.mon != nil && g.mon.prop == "C06" && g.rng.Intn(2) == 0:
+			// governance changes the chain list through the params module; afterwards one node restarts (new keeper
+			// objects over the same stores) while the others keep running: they must stay in step
+			cur := g.env.k.GetParams(g.env.ctx).Chains
+			next := "ethereum,minter,bsc,hub"
+			if len(cur) == 4 {
+				next = []string{"ethereum,minter,hub", "ethereum,minter,bsc,hub,tron", "minter,bsc,hub"}[g.rng.Intn(3)]
+			}
+			g.do("govchains " + next)
+			g.stats["det:governance-chain-list-change"]++
+			if g.rng.Intn(4) > 0 {
+				g.do(fmt.Sprintf("world restart:%d", 1+g.rng.Intn(2)))
+				g.stats["det:node-restart"]++
+			}
 		case x < 74 || (g.closedLoop && x < 78):
 			// a quiet stretch: blocks pass, nothing is reported from outside
 			k := 3 + g.rng.Intn(14)
@@ -688,7 +718,19 @@ func genMain(args []string) {
 	os.WriteFile(filepath.Join(*out, "result.json"), b, 0o644)
 }
 
+// historyOver ends a generated history early: the instance is dead (a block function never returned and still holds
+// the store locks), so neither the generator nor a monitor may read its state any more.
+type historyOver struct{}
+
 func runProfile(g *Gen, profile string, nops int) {
+	defer func() {
+		if r := recover(); r != nil {
+			if _, ok := r.(historyOver); !ok {
+				panic(r)
+			}
+			g.stats["history-ended-by-deadlock"]++
+		}
+	}()
 	switch profile {
 	case "ledger":
 		g.runLedger(nops)
@@ -1420,12 +1462,24 @@ func (g *Gen) runKeys(nops int) {
 				if len(sets) > 0 && r.Intn(6) > 0 {
 					n = sets[r.Intn(len(sets))].Nonce
 				}
+				// half of the confirmations carry a real signature of the registered key over the checkpoint, so a
+				// validator's junk confirmation and its valid one for the same transaction meet in one history
+				for _, sx := range sets {
+					if sx.Nonce == n && ethKeyByAddr[ext] != nil && r.Intn(2) == 0 {
+						sig = hex.EncodeToString(g.env.signCheckpoint(sx, ext))
+						g.stats["keys:confirmation-with-real-signature"]++
+					}
+				}
 				g.do(fmt.Sprintf("confirm %s %s set %d %s %s", chain, signer, n, ext, sig))
 			} else {
 				b := bs[r.Intn(len(bs))]
 				n := b.BatchNonce
 				if r.Intn(8) == 0 {
 					n += 7
+				}
+				if n == b.BatchNonce && ethKeyByAddr[ext] != nil && r.Intn(2) == 0 {
+					sig = hex.EncodeToString(g.env.signCheckpoint(b, ext))
+					g.stats["keys:confirmation-with-real-signature"]++
 				}
 				g.do(fmt.Sprintf("confirm %s %s batch %s %d %s %s", chain, signer, b.ExternalTokenId, n, ext, sig))
 			}
@@ -1587,9 +1641,38 @@ func (g *Gen) runStress(nops int) {
 				}
 				g.voteAll(chain, fmt.Sprintf("bex %s %d %d %d 0x%s %s %s", coin, n, bn, h, g.nextTag(), hostile(), g.pick(g.recips)))
 			}
-		case x < 55:
+		case x < 52:
+			// a burst of claims in one block: an execution of a pending batch reaches its quorum together with
+			// 66..100 further events, so that end-block tallies and applies them while the block's cache holds
+			// more dirty vote records than the store's iterator hand-over buffer (64)
+			chain := g.pick([]string{"ethereum", "bsc"})
+			toks := g.tokensOn(chain)
+			if len(toks) == 0 {
+				continue
+			}
+			if len(g.env.Batches(g.env.ctx, chain)) == 0 {
+				t := toks[r.Intn(len(toks))]
+				for j := 0; j < 3; j++ {
+					g.do(fmt.Sprintf("send %s %s %s %s %d %d %s", g.pick(g.accounts), chain, g.pick(g.recips), t.denom, 1000000000000+r.Intn(1000000), r.Intn(5)*1000000000, g.nextTag()))
+				}
+				g.do("reqbatch " + chain + " " + t.denom)
+			}
+			if bs := g.env.Batches(g.env.ctx, chain); len(bs) > 0 {
+				b := bs[r.Intn(len(bs))]
+				n := g.nextEvt[chain]
+				g.nextEvt[chain]++
+				g.voteAll(chain, fmt.Sprintf("bex %s %d %d %d 0x%s %d %s", b.ExternalTokenId, n, b.BatchNonce, g.eventHeight(chain), g.nextTag(), r.Intn(1000), g.pick(g.recips)))
+				g.stats["stress:claim-burst-with-execution"]++
+			}
+			for j, m := 0, 66+r.Intn(35); j < m; j++ {
+				t := toks[r.Intn(len(toks))]
+				n := g.nextEvt[chain]
+				g.nextEvt[chain]++
+				g.voteAll(chain, fmt.Sprintf("sth %d %s %d %s %s %d 0x%s", n, t.ext, 1+r.Intn(1000000), g.pick(g.recips), g.pick(g.accounts), g.eventHeight(chain), g.nextTag()))
+			}
+		case x < 57:
 			g.opReqBatch()
-		case x < 60:
+		case x < 61:
 			g.opCancel()
 		default:
 			g.do("end")
@@ -1612,6 +1695,7 @@ func checkDeterminism(g *Gen, stats map[string]int) {
 	realOracle := g.env.useRealOracle
 	for rep := 0; rep < 2; rep++ {
 		env := NewEnv(realOracle)
+		env.replica = rep + 1
 		k := 0
 		for i, line := range g.ops {
 			var out string
